@@ -487,7 +487,13 @@ func c06Scenario(writes []int, plan []attempt, pb int) vx.Scenario {
 		ops = append(ops, hop{kind: "W", n: n})
 	}
 	sc := script{name: name, ops: ops}
-	return vx.Scenario{Name: name, PB: pb, MaxSteps: 6000,
+	memPB := 0
+	if lingering && !thoroughTier {
+		// the lingering reader of an answered attempt races with the retry on the shared body
+		// (the recorded finding C06-stale-reader): one preemption at those accesses in the quick tier
+		memPB = 1
+	}
+	return vx.Scenario{Name: name, PB: pb, MaxSteps: 6000, MemPB: memPB,
 		Setup: func(s *vs.Sched) func(*vs.Result) vx.Exec {
 			rt := &proxyRT{plan: plan}
 			out := &outcome{}
@@ -516,6 +522,20 @@ func c06Scenario(writes []int, plan []attempt, pb int) vx.Scenario {
 			return func(r *vs.Result) vx.Exec {
 				var x vx.Exec
 				base(r, &x)
+				// a reader of an earlier, already answered attempt that is still inside the shared
+				// body while the retry reads it: the same defect as STALE-READER-CORRUPT
+				// showing as an index panic in bufferedReadSeeker.Read
+				lateReader := lingering && len(rt.log) >= 2
+				for _, pl := range rt.log {
+					if pl.late > 0 {
+						lateReader = true
+					}
+				}
+				for i, m := range x.Violations {
+					if lateReader && strings.HasPrefix(m, "PANIC: ") && strings.Contains(m, "slice bounds out of range") && strings.Contains(m, "(*bufferedReadSeeker).Read") {
+						x.Violations[i] = "STALE-READER-PANIC: the reader of an answered upload attempt and the retry were inside the shared request body at the same time: " + strings.TrimPrefix(m, "PANIC: ")
+					}
+				}
 				e := sc.expected()
 				tag := ""
 				if !out.closed && len(r.Panics) == 0 {
@@ -690,7 +710,10 @@ func scenarios(tier string) []vx.Scenario {
 	return out
 }
 
+var thoroughTier bool
+
 func c06Scenarios(thorough bool) []vx.Scenario {
+	thoroughTier = thorough
 	var out []vx.Scenario
 	sizes := [][]int{{10}, {4097}}
 	positions := []int{0, 1, 17, 4095, 4096, 4097, -1}
